@@ -194,6 +194,7 @@ func main() {
 	knownSeen := []string{}
 	nViol := 0
 	var machinery []string
+	unconfirmed := 0
 	shrinkDeadline := time.Now().Add(240 * time.Second)
 	shrunk := 0
 	for _, s := range sigs {
@@ -221,6 +222,7 @@ func main() {
 		}
 		if !ok {
 			machinery = append(machinery, fmt.Sprintf("violation %s of seed %d did not reproduce in a fresh process (non-determinism in the harness)", s, f.seed))
+			unconfirmed++
 			continue
 		}
 		nViol++
@@ -233,6 +235,26 @@ func main() {
 	// confirmed violations it is reported as a note - a library change that
 	// shares memory between callers also makes the harness's own accesses to
 	// that memory race, which is a consequence, not a harness bug
+	// A report that a fresh process does not repeat means state is carried
+	// from run to run inside the worker process that the reset between runs
+	// does not know about (for example a package-level cache or registry added
+	// to the library). The batch results are then not functions of their seeds:
+	// discard them and repeat the exploration with one worker process per seed.
+	if !fresh && nViol == 0 && unconfirmed > 0 && *replay == "" {
+		fmt.Printf("NOTE: %d report(s) of the batch did not repeat in a fresh process: the tree carries state between runs that the reset does not cover; repeating with one process per seed\n", unconfirmed)
+		args := append([]string{}, os.Args[1:]...)
+		args = append(args, "-fresh")
+		cmd := exec.Command(os.Args[0], args...)
+		cmd.Stdout, cmd.Stderr = os.Stdout, os.Stderr
+		err := cmd.Run()
+		if ee, ok := err.(*exec.ExitError); ok {
+			os.Exit(ee.ExitCode())
+		} else if err != nil {
+			fmt.Fprintln(os.Stderr, "simdrive:", err)
+			os.Exit(2)
+		}
+		os.Exit(0)
+	}
 	for _, m := range machinery {
 		if nViol > 0 {
 			fmt.Printf("NOTE (machinery, next to confirmed violations): %s\n", firstLine(m, 400))
